@@ -1,1 +1,178 @@
-(* Front/Codegen.v -- stub, to be filled *)
+(* Front/Codegen.v -- name mangling of the code generator (layers F3/F4, properties C08/C09).
+
+   Models, function for function, on strings as lists of char codes (N):
+     asn1rs-model/src/rust.rs          rust_variant_name, rust_struct_or_enum_name, rust_module_name (both flags),
+                                       rust_field_name, rust_constant_name
+     asn1rs-model/src/generate/rust.rs RustCodeGenerator::{rust_field_name (with the KEYWORDS of Gen/Keywords.v),
+                                       rust_variant_name, rust_module_name}
+   and the Rust lexical facts the property C09 talks about (identifier grammar, keyword tables of the 2021 edition,
+   transcribed from the Rust Reference), plus the ASN.1 identifier / typereference grammar of X.680 12.2, 12.3.
+
+   char predicates (is_uppercase, is_lowercase, is_alphabetic, to_lowercase, to_uppercase, to_ascii_xxx) are exact on
+   ASCII and DECLARED OUT OF MODEL above U+007F (DESIGN.md 2.3): the executable interface refuses such input. *)
+From A1 Require Export Base.Res.
+From A1 Require Import Gen.Keywords.
+From Coq Require Import String Ascii.
+Local Open Scope N_scope.
+
+(* ------------------------------------------------------------------ characters *)
+Definition HYPHEN : N := 45.
+Definition USCORE : N := 95.
+Definition is_upper (c : N) : bool := (65 <=? c) && (c <=? 90).
+Definition is_lower (c : N) : bool := (97 <=? c) && (c <=? 122).
+Definition is_digit (c : N) : bool := (48 <=? c) && (c <=? 57).
+Definition is_alpha (c : N) : bool := is_upper c || is_lower c.
+Definition to_lower (c : N) : N := if is_upper c then c + 32 else c.
+Definition to_upper (c : N) : N := if is_lower c then c - 32 else c.
+Definition is_sep (c : N) : bool := (c =? HYPHEN) || (c =? USCORE).
+
+Fixpoint str_eqb (a b : list N) : bool :=
+  match a, b with
+  | [], [] => true
+  | x :: a', y :: b' => (x =? y) && str_eqb a' b'
+  | _, _ => false
+  end.
+
+Lemma str_eqb_eq : forall a b, str_eqb a b = true <-> a = b.
+Proof.
+  induction a as [|x a IH]; destruct b as [|y b]; simpl; split; intros H; try discriminate; try reflexivity.
+  - apply andb_true_iff in H. destruct H as [H1 H2]. apply N.eqb_eq in H1. apply IH in H2. subst. reflexivity.
+  - inversion H; subst. rewrite N.eqb_refl. simpl. apply IH. reflexivity.
+Qed.
+
+Definition mem_str (s : list N) (l : list (list N)) : bool := existsb (str_eqb s) l.
+
+Fixpoint codes (s : string) : list N :=
+  match s with
+  | EmptyString => []
+  | String a r => N_of_ascii a :: codes r
+  end.
+
+(* ------------------------------------------------------------------ rust.rs: rust_variant_name *)
+(* state: (next_upper, prev_upper); `chars.peek()` is the head of the rest *)
+Fixpoint variant_go (s : list N) (next_upper prev_upper : bool) : list N :=
+  match s with
+  | [] => []
+  | c :: rest =>
+    if is_sep c then variant_go rest true false
+    else if next_upper && negb prev_upper then to_upper c :: variant_go rest false true
+    else
+      let peek_lower := match rest with n :: _ => is_lower n | [] => false end in
+      (if prev_upper && negb peek_lower then to_lower c else c) :: variant_go rest next_upper (is_upper c)
+  end.
+
+Definition rust_variant_name (s : list N) : list N := variant_go s true false.
+Definition rust_struct_or_enum_name (s : list N) : list N := rust_variant_name s.
+
+(* ------------------------------------------------------------------ rust.rs: rust_module_name *)
+Definition is_nil {A} (l : list A) : bool := match l with [] => true | _ => false end.
+Definition ends_uscore (out_rev : list N) : bool := match out_rev with c :: _ => c =? USCORE | [] => false end.
+
+(* `out` is kept reversed: the Rust code inspects out.is_empty() and out.ends_with('_') while building it *)
+Definition pad_step (pad : bool) (c : N) (out_rev : list N) (prev_alpha : bool) : list N :=
+  if pad && negb (Bool.eqb prev_alpha (is_alpha c)) && negb (c =? HYPHEN) && negb (c =? USCORE)
+     && negb (is_nil out_rev) && negb (ends_uscore out_rev)
+  then USCORE :: out_rev else out_rev.
+
+Definition upper_step (o1 : list N) (prev_lowered prev_alpha : bool) (rest : list N) : list N :=
+  if negb (is_nil o1) && prev_alpha then
+    (if negb prev_lowered then USCORE :: o1
+     else match rest with
+          | n :: _ => if is_lower n then USCORE :: o1 else o1
+          | [] => o1
+          end)
+  else o1.
+
+Fixpoint module_go (pad : bool) (s : list N) (out_rev : list N) (prev_lowered prev_alpha : bool) : list N :=
+  match s with
+  | [] => rev out_rev
+  | c :: rest =>
+    let o1 := pad_step pad c out_rev prev_alpha in
+    if is_upper c then module_go pad rest (to_lower c :: upper_step o1 prev_lowered prev_alpha rest) true (is_alpha c)
+    else if is_sep c then module_go pad rest (USCORE :: o1) false (is_alpha c)
+    else module_go pad rest (c :: o1) false (is_alpha c)
+  end.
+
+Definition rust_module_name (s : list N) (pad : bool) : list N := module_go pad s [] false false.
+Definition rust_field_name (s : list N) : list N := rust_module_name s false.
+Definition rust_constant_name (s : list N) : list N := map to_upper (rust_module_name s true).
+
+(* ------------------------------------------------------------------ generate/rust.rs *)
+Definition gen_field_name (s : list N) (check_for_keywords : bool) : list N :=
+  let name := map (fun c => if c =? HYPHEN then USCORE else c) s in
+  if check_for_keywords && mem_str name KEYWORDS then name ++ [USCORE] else name.
+
+Fixpoint gen_variant_go (s : list N) (next_upper : bool) : list N :=
+  match s with
+  | [] => []
+  | c :: rest =>
+    if next_upper then to_upper c :: gen_variant_go rest false
+    else if is_sep c then gen_variant_go rest true
+    else c :: gen_variant_go rest false
+  end.
+Definition gen_variant_name (s : list N) : list N := gen_variant_go s true.
+
+Fixpoint gen_module_go (s : list N) (out_rev : list N) (prev_lowered : bool) : list N :=
+  match s with
+  | [] => rev out_rev
+  | c :: rest =>
+    if is_upper c then
+      let o := if negb (is_nil out_rev) then
+                 (if negb prev_lowered then USCORE :: out_rev
+                  else match rest with
+                       | n :: _ => if is_lower n then USCORE :: out_rev else out_rev
+                       | [] => out_rev
+                       end)
+               else out_rev in
+      gen_module_go rest (to_lower c :: o) true
+    else if c =? HYPHEN then gen_module_go rest (USCORE :: out_rev) false
+    else gen_module_go rest (c :: out_rev) false
+  end.
+Definition gen_module_name (s : list N) : list N := gen_module_go s [] false.
+
+(* what ends up in the generated file for an ASN.1 component / alternative / item name *)
+Definition emit_field (s : list N) : list N := gen_field_name (rust_field_name s) true.
+Definition emit_variant (s : list N) : list N := gen_variant_name (rust_variant_name s).
+Definition emit_type (s : list N) : list N := rust_struct_or_enum_name s.
+
+(* ------------------------------------------------------------------ Rust lexical facts (The Rust Reference) *)
+(* "Keywords": strict keywords incl. the 2018+ ones, and reserved keywords incl. `try` (2018+) *)
+Definition RUST_STRICT : list (list N) := map codes
+  ["as"; "break"; "const"; "continue"; "crate"; "else"; "enum"; "extern"; "false"; "fn"; "for"; "if"; "impl"; "in";
+   "let"; "loop"; "match"; "mod"; "move"; "mut"; "pub"; "ref"; "return"; "self"; "Self"; "static"; "struct"; "super";
+   "trait"; "true"; "type"; "unsafe"; "use"; "where"; "while"; "async"; "await"; "dyn"]%string.
+Definition RUST_RESERVED : list (list N) := map codes
+  ["abstract"; "become"; "box"; "do"; "final"; "macro"; "override"; "priv"; "typeof"; "unsized"; "virtual"; "yield"; "try"]%string.
+Definition RUST_KEYWORDS : list (list N) := RUST_STRICT ++ RUST_RESERVED.
+Definition is_keyword (s : list N) : bool := mem_str s RUST_KEYWORDS.
+
+(* "Identifiers" restricted to ASCII: XID_Start XID_Continue* | _ XID_Continue+ *)
+Definition ident_continue (c : N) : bool := is_alpha c || is_digit c || (c =? USCORE).
+Definition is_rust_ident (s : list N) : bool :=
+  match s with
+  | [] => false
+  | c :: rest =>
+    if is_alpha c then forallb ident_continue rest
+    else if c =? USCORE then negb (is_nil rest) && forallb ident_continue rest
+    else false
+  end.
+
+(* ------------------------------------------------------------------ ASN.1 names (X.680 12.2 typereference, 12.3 identifier) *)
+Definition asn_char (c : N) : bool := is_alpha c || is_digit c || (c =? HYPHEN).
+(* no hyphen at the end, no two hyphens in a row *)
+Fixpoint hyphens_ok (s : list N) : bool :=
+  match s with
+  | [] => true
+  | c :: rest =>
+    (if c =? HYPHEN then match rest with [] => false | n :: _ => negb (n =? HYPHEN) end else true) && hyphens_ok rest
+  end.
+Definition asn_identifier (s : list N) : bool :=
+  match s with
+  | c :: rest => is_lower c && forallb asn_char rest && hyphens_ok s
+  | [] => false
+  end.
+Definition asn_typereference (s : list N) : bool :=
+  match s with
+  | c :: rest => is_upper c && forallb asn_char rest && hyphens_ok s
+  | [] => false
+  end.
